@@ -426,3 +426,13 @@ AEM.enum = enum_aem
 CONTRACTS += [AEM_SPEC, AEM]
 
 CONTRACTS[0].enum = enum_map_mode
+
+# the same contract for a mode given as a whole REAL number (float, numpy float, Fraction): converted to int first, then mapped like the int
+import dataclasses as _dc
+MAP_MODE_REAL = _dc.replace(CONTRACTS[0], types={"self": CIRCUIT, "mode": "real"}, requires=[WF_INTERNAL, "mode >= 0", "mode == int(mode)"],
+                            ensures={**CONTRACTS[0].ensures, "stored_as_int": "isinstance(result, int)"}, props=["C01", "C02"])
+MAP_MODE_REAL.enum = None
+MAP_MODE_REAL.replay = None
+MAP_MODE_REAL.no_callee = True
+MAP_MODE_REAL.label = "whole real mode"
+CONTRACTS.append(MAP_MODE_REAL)
